@@ -622,21 +622,24 @@ class Gen:
                 return True
         return False
 
-    def fault_task(self):
+    TASK_FAULTS_RARE = ["nontop", "nontop_pause", "other_stack", "pause_parallel", "nest_running", "second_body", "rerun",
+                        "bad_bodyid", "end_paused", "resume_running", "exec_running"]
+
+    def fault_task(self, rare_only=False, only=None):
         r = self.rng
-        for th in r.sample(self.th, len(self.th)):
-            for m in self.task_models(th):
-                p = th.proc
-                stack = th.bstack[m]
-                top = stack[-1] if stack else None
-                kinds = ["unknown_task", "unknown_type", "dup_task", "dup_type", "nontop", "other_stack",
-                         "pause_parallel", "nest_running", "second_body", "rerun", "bad_bodyid", "end_paused",
-                         "resume_running", "exec_running"]
-                r.shuffle(kinds)
-                for k in kinds:
-                    if self._task_fault(th, m, k, top):
-                        self.fault("task:" + k)
-                        return True
+        rare = self.TASK_FAULTS_RARE
+        common = ["unknown_task", "unknown_type", "dup_task", "dup_type"]
+        for kinds in ([[only]] if only else [rare] if rare_only else [rare, common]):
+            kinds = list(kinds)
+            r.shuffle(kinds)
+            for k in kinds:
+                for th in r.sample(self.th, len(self.th)):
+                    for m in self.task_models(th):
+                        stack = th.bstack[m]
+                        top = stack[-1] if stack else None
+                        if self._task_fault(th, m, k, top):
+                            self.fault("task:" + k)
+                            return True
         return False
 
     def _task_fault(self, th, m, k, top):
@@ -664,6 +667,12 @@ class Gen:
                 return False
             self.emit_task(th, m, v, b.task, b.id)
             return True
+        if k == "nontop_pause" and len(th.bstack[m]) >= 2:
+            for b in th.bstack[m][:-1]:
+                if b.state == "running" and "pause" in b.task.flags:
+                    self.emit_task(th, m, "p", b.task, b.id)
+                    return True
+            return False
         if k == "other_stack":
             for t2 in th.proc.threads:
                 if t2 is th or not t2.bstack[m]:
